@@ -1,4 +1,5 @@
-import TantivyModel.Proofs.SSTable.Delta
+import TantivyModel.Proofs.SSTable.Refine
+import TantivyModel.Proofs.SSTable.Writer
 /-!
 # C15 — Term dictionaries behave as ordered maps from byte strings
 
@@ -72,6 +73,98 @@ theorem C15_blocks_partition {α} (key : α → Key) (blockLen : Nat) (xs : List
     (blocksOf key blockLen xs).flatten = xs ∧ ∀ b ∈ blocksOf key blockLen xs, b ≠ [] :=
   ⟨blocksOf_flatten key blockLen xs, cutBlocks_nonempty key blockLen [] 0 [] xs⟩
 
+/-! ## block index -/
+
+/-- separator of a block: ≥ every key of the block (in particular its last key), < every key of
+every later block (in particular the first key of the next block) -/
+theorem C15_block_separators {V} (b : Assoc V) (rest : List (Assoc V)) (h : GoodBlocks (b :: rest)) :
+    ∃ s ss, sepsOf (b :: rest) = s :: ss ∧ ss = sepsOf rest ∧
+      (∀ e ∈ b, lexLe e.1 s = true) ∧ (∀ e ∈ rest.flatten, lexLt s e.1 = true) :=
+  sepsOf_head b rest h
+
+/-- `find_shorter_str_in_between`: `left ≤ result < right` whenever `left < right` -/
+theorem C15_find_shorter (left right : Key) (h : lexLt left right = true) :
+    lexLe left (findShorter left right) = true ∧ lexLt (findShorter left right) right = true :=
+  findShorter_bounds h
+
+/-- routing: for the dictionary the writer builds from any sorted map and any block length, the
+block found for `k` (first separator ≥ k, or the pseudo block of a ≤ 1-block file) splits the map
+into entries below `k`, the block, entries above `k` — so it is the unique block that can hold
+`k` — and its first ordinal is the number of entries before it; if no block is found every key
+is below `k` -/
+theorem C15_block_routing {V} (blockLen : Nat) (m : Assoc V) (hs : SortedMap m) (k : Key) :
+    (∀ b, ((build blockLen m).locateKey k).bind (build blockLen m).blockAt = some b →
+      ∃ pre post, m = pre ++ b.entries ++ post ∧ b.firstOrd = pre.length ∧
+        (∀ e ∈ pre, lexLt e.1 k = true) ∧ (∀ e ∈ post, lexLt k e.1 = true)) ∧
+    (((build blockLen m).locateKey k).bind (build blockLen m).blockAt = none →
+      ∀ e ∈ m, lexLt e.1 k = true) := by
+  refine ⟨fun b h => ?_, dict_none blockLen m hs k⟩
+  obtain ⟨pre, post, ha, hfo⟩ := dict_split blockLen m hs k b h
+  exact ⟨pre, post, ha.eq, hfo, ha.below, ha.above⟩
+
+/-! ## operations refine the specification -/
+
+/-- `get`, `term_ord` on the block model equal the sorted-map operations, for every sorted map,
+block length and key -/
+theorem C15_ops_refine_get_term_ord {V} (blockLen : Nat) (m : Assoc V) (hs : SortedMap m) (k : Key) :
+    (build blockLen m).get k = get m k ∧ (build blockLen m).termOrd k = termOrd m k :=
+  ⟨refine_get blockLen m hs k, refine_termOrd blockLen m hs k⟩
+
+/-- `term_ord_or_next` equals the specification whenever the key is routed to a block; a key
+above the last separator of a multi-block dictionary yields `Next(u64::MAX)` where the
+specification says `Next(number of terms)` (the code documents this: "may not exist") -/
+theorem C15_ops_refine_term_ord_or_next {V} (blockLen : Nat) (m : Assoc V) (hs : SortedMap m) (k : Key) :
+    (∀ b, ((build blockLen m).locateKey k).bind (build blockLen m).blockAt = some b →
+      (build blockLen m).termOrdOrNext k = termOrdOrNext m k) ∧
+    (((build blockLen m).locateKey k).bind (build blockLen m).blockAt = none →
+      (build blockLen m).termOrdOrNext k = .next U64_MAX ∧ termOrdOrNext m k = .next m.length) :=
+  ⟨fun b h => refine_orn_some blockLen m hs k b h, refine_orn_none blockLen m hs k⟩
+
+/-- the scan of one sorted block finds the first key ≥ k, exact iff equal -/
+theorem C15_block_scan (ks : List Key) (k : Key) (hs : StrictInc ks) :
+    scanOrNext ks k 0 = specHit ks k ∧ (specHit ks k).exact? = ks.findIdx? (fun a => a == k) := by
+  refine ⟨?_, specHit_exact ks k hs⟩
+  rw [scanOrNext_spec ks k 0 hs, Hit.shift_zero]
+
+/- Still to prove (full statements; the harness compares these operations on every run):
+   C15_ops_refine_ord_to_term : SortedMap m → (build L m).ordToTerm ord = ordToTerm m ord
+   C15_ops_refine_range       : SortedMap m → (build L m).stream lo hi limit = some out →
+                                  IsLimitedRange m lo hi limit (out.map (fun e => (e.2.1, e.2.2)))
+                                  ∧ ordinals of `out` are the spec ordinals
+                                (`stream = none` exactly when first block > last block + 1: known
+                                 finding C15:inverted-range-across-blocks-panics)
+   C15_delta_scan             : StrictInc ks → deltaScan k (deltaEntries [] ks) 0 0 = scanOrNext ks k 0
+   C15_automaton_stream       : A.CanMatchSound → keys/values of (build L m).search A lo hi
+                                  = search A m lo hi (pruning by `canBlockMatch` drops no accepted key)
+   C15_merge                  : (∀ m ∈ ms, SortedMap m) → kwayMerge comb ms = mergeSpec comb ms
+                                  ∧ ordinal tables total and strictly monotone -/
+
+/-! ## insertion order (DESIGN §8, F6) -/
+
+/-- the writer accepts a key iff it is greater than the previous one — or both are empty and the
+previous one was not the last key of a closed block (the defect) -/
+theorem C15_insert_accepts_iff (blockLen : Nat) (s : WState) (last : Option Key) (k : Key)
+    (h : WInv s last) :
+    (s.insert blockLen k).isSome = true ↔
+      (last = none ∨ (∃ l, last = some l ∧ lexLt l k = true) ∨
+        (s.blockStart = false ∧ last = some [] ∧ k = [])) :=
+  insert_accepts_iff blockLen s last k h
+
+/-- partial form of "accepted ⇒ strictly increasing": it holds for every block length and every
+sequence without two consecutive empty keys; conversely every strictly increasing sequence is
+accepted (cross-block order is enforced by the assert of find_shorter_str_in_between) -/
+theorem C15_insert_order_partial (blockLen : Nat) (ks : List Key) :
+    (writerAccepts blockLen ks = true → NoEmptyDup none ks → StrictInc ks) ∧
+    (StrictInc ks → writerAccepts blockLen ks = true) := by
+  constructor
+  · intro h hne
+    have h' : firstRejected blockLen {} ks 0 = none := by
+      simpa [writerAccepts] using h
+    simpa using accepted_strictInc blockLen {} none ks 0 WInv_init h' hne
+  · intro h
+    have := strictInc_accepted blockLen {} none ks 0 WInv_init (by simpa using h)
+    simp [writerAccepts, this]
+
 /-! ## insertion order (DESIGN §8, F6) -/
 
 /-- FALSE as a universal statement: "every sequence the writer accepts is strictly increasing".
@@ -92,6 +185,13 @@ example : lexLt [1, 2] [1, 2, 0] = true ∧ cpl [1, 2] [1, 2, 0] = 2 := by decid
 example : encodeKeepAdd 15 15 = [255] ∧ encodeKeepAdd 2 1 = [18] := by decide
 example : encodeKeepAdd 16 3 = [1, 16, 3] ∧ encodeKeepAdd 0 300 = [1, 0, 172, 2] := by
   simp [encodeKeepAdd, vintSer, Gen.FOUR_BIT_LIMITS, Gen.VINT_MODE, Gen.VINT_CONTINUE_BIT]
+example : ((build 2 [([1], 10), ([1, 2], 20), ([1, 2, 3], 30), ([2], 40), ([3, 0], 50)]).blocks.map (·.sep))
+    = [[1, 2], [1, 3], [3, 0]] := by decide
+example : SortedMap [(([1] : Key), 10), ([1, 2], 20), ([1, 2, 3], 30), ([2], 40), ([3, 0], 50)] :=
+  (strictIncB_iff _).mp (by decide)
+example : (build 2 [([1], 10), ([1, 2], 20), ([1, 2, 3], 30), ([2], 40), ([3, 0], 50)]).termOrdOrNext [1, 9] = .next 3
+    ∧ (build 2 [([1], 10), ([1, 2], 20), ([1, 2, 3], 30), ([2], 40), ([3, 0], 50)]).termOrdOrNext [9] = .next U64_MAX := by decide
+example : NoEmptyDup none [[], [1], [1, 2]] ∧ ¬ NoEmptyDup none [[], []] := by simp [NoEmptyDup]
 example : writerAccepts 4 [[1], [1, 2], [1, 2, 3], [2]] = true ∧ writerAccepts 4 [[1], [1, 2], [1, 2], [2]] = false := by decide
 
 end TantivyModel.C15
